@@ -33,7 +33,8 @@ def run_worker(jobs, hashseed, junk, junk_seed=0):
 def work(job):
     group, seed, tier = job
     rng = random.Random(f"{seed}/c20/{group[0]['name']}")
-    jobs = [{"src": p["src"], "args": ["-O" + str(rng.choice([0, 1, 3]))] + p["args"]} for p in group]
+    extra = [[], [], ["-fhook-per-state"], ["-fallocate-str-space-dynamic"], ["-fallocate-str-space-dynamic-on-demand"], ["-fstrings-as-u8"]]
+    jobs = [{"src": p["src"], "args": ["-O" + str(rng.choice([0, 1, 3]))] + p["args"] + rng.choice(extra)} for p in group]
     res = {"names": [p["name"] for p in group], "compared": 0, "viol": [], "tool": None}
     try:
         # (a) each alone, fresh process
@@ -69,6 +70,11 @@ def work(job):
                 continue
             if o["kind"] != "ok":
                 continue
+            for what_differs in ("flags", "hook_refs", "header"):
+                if o.get(what_differs) != ref.get(what_differs):
+                    res["viol"].append({"kind": f"{what_differs}-differ", "history": what, "program": group[i]["src"], "args": jobs[i]["args"],
+                                        "alone": str(ref.get(what_differs))[:600], "here": str(o.get(what_differs))[:600]})
+                    break
             r = model.ask("equiv", 0, 1, 400000, ref["machine"], o["machine"])
             if not (r.startswith("closed") and "cert=true" in r):
                 res["viol"].append({"kind": "machines-differ", "history": what, "program": group[i]["src"], "args": jobs[i]["args"],
